@@ -42,7 +42,7 @@ def args_of(params):
     return [f"{k}={v}" for k, v in params.items()]
 
 
-def run_one(params, timeout=600, binary=None):
+def run_one(params, timeout=240, binary=None):
     os.makedirs(CERTDIR, exist_ok=True)
     cmd = [binary or harness_bin(HARNESS)] + args_of(params) + [f"certdir={CERTDIR}"]
     try:
@@ -55,7 +55,7 @@ def run_one(params, timeout=600, binary=None):
     return text
 
 
-def run_many(scenarios, workers=None, timeout=600, binary=None):
+def run_many(scenarios, workers=None, timeout=240, binary=None):
     workers = workers or int(os.environ.get("VERIF_E2E_WORKERS", "6"))
     with concurrent.futures.ThreadPoolExecutor(max_workers=workers) as ex:
         texts = list(ex.map(lambda p: run_one(p, timeout, binary), scenarios))
@@ -74,7 +74,10 @@ def fam_interop(rng, i, roles=ROLES):
     duplication and reordering (jitter) for a finite prefix; bidi + uni streams in both directions"""
     role = roles[i % len(roles)]
     swin = rng.choice([0, 0, 1, 64, 1200, 5000, 70000])          # s2n receive windows (0 = s2n default)
-    qwin = rng.choice([200000, 200000, 1, 50, 900, 4000, 70000])  # quiche receive windows
+    # quiche receive windows. NOT 1: quiche 0.29 raises a stream/connection limit only when `available < window / 2`
+    # (integer division), so a 1-byte window is never re-opened after the byte was read — a quiche quirk observed
+    # with this harness (s2n-quic keeps sending STREAM_DATA_BLOCKED, quiche idles out); not an s2n-quic matter
+    qwin = rng.choice([200000, 200000, 2, 50, 900, 4000, 70000])
     smallest = min([w for w in (swin, qwin) if w] or [10**9])
     size = rng.choice([0, 1, 300, 5000, 40000, 150000])
     if smallest < 1000:
@@ -94,7 +97,7 @@ def fam_interop(rng, i, roles=ROLES):
         "s.bidi_local": rng.choice([0, swin]), "s.bidi_remote": rng.choice([0, swin]), "s.uni": rng.choice([0, 0, swin, 2000]),
         "s.max_bidi_remote": rng.choice([0, 0, 1, 2, 100]), "s.max_uni_remote": rng.choice([0, 0, 1, 3]),
         "s.max_idle_ms": rng.choice([0, 0, 20000, 40000]), "s.max_ack_delay_ms": rng.choice([0, 0, 5, 60]),
-        "max_mtu": rng.choice([0, 0, 1200, 1350, 9000]),
+        "max_mtu": rng.choice([0, 0, 1228, 1350, 1500, 9000]),
         # quiche configuration
         "q.data_window": rng.choice([1000000, 1000000, 1500, 6000, 60000]),
         "q.bidi_local": rng.choice([200000, qwin]), "q.bidi_remote": rng.choice([200000, qwin]), "q.uni": rng.choice([200000, qwin, 3000]),
@@ -109,6 +112,8 @@ def fam_interop(rng, i, roles=ROLES):
     }
     if p["bidi"] + p["uni"] + p["suni"] == 0:
         p["bidi"] = 1
+    if role == "s2n-client" and p["q.cid_len"] == 0:
+        p["q.cid_len"] = 4          # zero-length connection ids are only sampled for the quiche CLIENT (as the in-tree test does)
     return {k: v for k, v in p.items() if not (isinstance(v, int) and v == 0 and k not in ("size", "bidi", "uni", "suni"))}
 
 
@@ -154,6 +159,10 @@ def o_c07(tr):
     t_end, status, msg = tr.end
     if status == "setup-error":
         return [("e2e:c07:setup-error", f"harness could not set the scenario up: {msg[:300]}")]
+    if status == "crashed":
+        return [("e2e:c07:crash", f"harness process died: {msg[:300]}")]
+    if status == "wallclock-timeout" and tr.clock is None:
+        return [("e2e:c07:hang", "harness process produced no trace within the wall-clock limit")]
     if tr.clock != "virtual=ok":
         return [("e2e:c07:setup-error", f"virtual clock self-test: {tr.clock}")]
     if status == "panic" or tr.panics:
